@@ -77,6 +77,90 @@ pub fn run(ctx: &Ctx) -> i32 {
         ctx.sample(json!({"family": "extrude", "case": "3x1", "meaning": "a 3x1 image with position-coded pixels; the 5x3 result must satisfy out(x,y) = in(clamp(x-1), clamp(y-1))"}));
     }
 
+    // ---- extrude_border must not look at pixel values
+    if ctx.wants_family("extrude-values") {
+        // pixel alphabet: alpha 0 with and without colour, the alpha boundaries, the channel extremes
+        const A: [[u8; 4]; 12] = [[0, 0, 0, 0], [255, 0, 0, 0], [1, 2, 3, 0], [255, 255, 255, 0], [9, 8, 7, 1], [9, 8, 7, 127], [9, 8, 7, 128], [9, 8, 7, 254], [0, 0, 0, 255], [255, 255, 255, 255], [0, 255, 0, 255], [255, 0, 255, 1]];
+        // (kind, w, h, a, b): 0 = value A[b] at position a of a position-coded w x h image; 1 = 2x2 image, assignment number a over A[..6];
+        // 2 = 256 x h image whose channel a sweeps all byte values along x (other channels b-dependent constants)
+        let mut cases: Vec<(u8, u32, u32, u32, u32)> = Vec::new();
+        for w in 1..=4u32 {
+            for h in 1..=4u32 {
+                for pos in 0..w * h {
+                    for v in 0..A.len() as u32 {
+                        cases.push((0, w, h, pos, v));
+                    }
+                }
+            }
+        }
+        for a in 0..6u32.pow(4) {
+            cases.push((1, 2, 2, a, 0));
+        }
+        for ch in 0..4u32 {
+            for h in [1u32, 2, 3] {
+                for b in 0..3u32 {
+                    cases.push((2, 256, h, ch, b));
+                }
+            }
+        }
+        ctx.family("extrude-values", cases.len() as u64, "extrude_border on images whose pixel VALUES vary: each of 12 values (alpha 0 with and without colour, alpha 1/127/128/254/255, channel extremes) at every position of every position-coded image of 1x1..4x4; all 6^4 assignments of six of them to a 2x2 image; 256-wide images of height 1/2/3 in which one channel sweeps all byte values (the others 0 / 255 / mixed); out(x,y) must equal in(clamp(x-1), clamp(y-1)) byte for byte", true);
+        cases.par_iter().for_each(|(kind, w, h, a, b)| {
+            let case = || format!("kind={} {}x{} a={} b={}", kind, w, h, a, b);
+            if !ctx.wants("extrude-values", &case) {
+                return;
+            }
+            let mut img = RgbaImage::new(*w, *h);
+            for y in 0..*h {
+                for x in 0..*w {
+                    let px = match kind {
+                        0 => {
+                            if y * w + x == *a {
+                                A[*b as usize]
+                            } else {
+                                code(x, y)
+                            }
+                        }
+                        1 => A[((a / 6u32.pow(y * 2 + x)) % 6) as usize],
+                        _ => {
+                            let other = match b {
+                                0 => 0u8,
+                                1 => 255,
+                                _ => (x as u8).wrapping_mul(7) ^ (y as u8 + 1),
+                            };
+                            let mut p = [other; 4];
+                            p[*a as usize] = x as u8;
+                            p
+                        }
+                    };
+                    img.put_pixel(x, y, image::Rgba(px));
+                }
+            }
+            let src = img.clone();
+            let mut p = Vec::new();
+            let out = guarded(&mut p, || "extrude_border".into(), || extrude_border(img));
+            ctx.eval(((*w + 2) * (*h + 2)) as u64);
+            let Some(out) = out else {
+                ctx.violation(Violation { family: "extrude-values".into(), case: case(), sig: format!("panic:{}", sig_of(&p[0].1)), detail: format!("extrude_border panicked: {}", p[0].1), bytes: None, extra: json!({}) });
+                return;
+            };
+            ctx.outcome(hash64(&(out.dimensions(), hash64(&out.as_raw()))));
+            if out.dimensions() != (w + 2, h + 2) {
+                ctx.violation(Violation { family: "extrude-values".into(), case: case(), sig: "dimensions".into(), detail: format!("result is {:?}, expected {}x{}", out.dimensions(), w + 2, h + 2), bytes: None, extra: json!({}) });
+                return;
+            }
+            for y in 0..h + 2 {
+                for x in 0..w + 2 {
+                    let sx = (x as i64 - 1).clamp(0, *w as i64 - 1) as u32;
+                    let sy = (y as i64 - 1).clamp(0, *h as i64 - 1) as u32;
+                    if out.get_pixel(x, y).0 != src.get_pixel(sx, sy).0 {
+                        ctx.violation(Violation { family: "extrude-values".into(), case: case(), sig: "pixel".into(), detail: format!("output pixel ({},{}) is {:?}, source pixel ({},{}) is {:?}", x, y, out.get_pixel(x, y).0, sx, sy, src.get_pixel(sx, sy).0), bytes: None, extra: json!({}) });
+                        return;
+                    }
+                }
+            }
+        });
+    }
+
     // ---- PaletteMapper
     if ctx.wants_family("mapper") {
         let idxs = [0u32, 1, 255, 256, 257, 70000, 65536, 65791];
